@@ -32,7 +32,8 @@ let emit kind tag text =
   bump kind_counts kind;
   let key = kind ^ tag in
   bump tag_counts key;
-  if get tag_counts key <= per_tag_limit then Printf.printf "MISMATCH %s %s %s\n" kind tag text
+  if get tag_counts key <= per_tag_limit then
+    if kind = "NOTE" then Printf.printf "NOTE %s %s\n" tag text else Printf.printf "MISMATCH %s %s %s\n" kind tag text
 
 (* ---------- small helpers ---------- *)
 let contains s sub =
@@ -120,7 +121,9 @@ type run = {
   mutable diverged : bool;
   mutable cur : icall option array;    (* call in flight per thread *)
   mutable iheld : (int * int) list;    (* blocks held by the client, from the implementation's results *)
-  mutable limbo : icall list;          (* calls that panicked: their blocks stay 'touched' for the rest of the run *)
+  mutable limbo : (icall * bool) list; (* calls that panicked (+ saw-marker flag): their blocks stay 'touched' for the rest of the run *)
+  mutable sawmark : bool array;        (* the in-flight small-order put of the thread read the marker at its first load *)
+  mutable firststep : bool array;      (* the next S of the thread is the first access of its call *)
   mutable msgs : (string * string * string) list;   (* kind, tag, text: flushed with the schedule at END *)
   mutable sched : string;
   mutable tids : Buffer.t;
@@ -132,7 +135,7 @@ type run = {
 
 let r =
   { id = ""; scenario = ""; mode = ""; cfg = ""; g = { hord = nat_of_int 9; tlog = nat_of_int 2 }; hf = 512; tf = 2048;
-    thuge = 4; rows = 8; nframes = 0; nthreads = 0; ms = None; diverged = false; cur = [||]; iheld = []; limbo = []; msgs = [];
+    thuge = 4; rows = 8; nframes = 0; nthreads = 0; ms = None; diverged = false; cur = [||]; iheld = []; limbo = []; sawmark = [||]; firststep = [||]; msgs = [];
     sched = "?"; tids = Buffer.create 64; nontrivial = false; prev = -1; nsteps = 0; active = false }
 
 (* summary counters *)
@@ -230,6 +233,8 @@ let boot_run tokens =
   r.nthreads <- nt;
   r.cfg <- Printf.sprintf "th%d/%d/%s" th fr init;
   r.cur <- Array.make nt None;
+  r.sawmark <- Array.make nt false;
+  r.firststep <- Array.make nt false;
   let frn = n_of_int fr in
   let l, held = if init = "alloc" then (reserve_all g frn, alloc_all_held g frn) else (free_all g frn, []) in
   r.ms <- Some (boot l held (nat_of_int nt));
@@ -280,6 +285,8 @@ let do_call tid call =
   sched_step tid;
   if tid >= r.nthreads then failwith "CALL: thread id out of range";
   r.cur.(tid) <- Some call;
+  r.sawmark.(tid) <- false;
+  r.firststep.(tid) <- true;
   (match call with
   | IPut (f, o) ->
       if not (take_block (f, o)) then note "CORR" "[scenario]" (Printf.sprintf "thread %d frees a block that is not held: put %d %d" tid f o)
@@ -309,6 +316,12 @@ let do_step tid line fields =
   sched_step tid;
   match fields with
   | [ kind; what; h; row; off; width; found; nw; ok ] -> (
+      if tid < Array.length r.firststep && r.firststep.(tid) then begin
+        r.firststep.(tid) <- false;
+        (match r.cur.(tid) with
+        | Some (IPut (_, o)) when o < int_of_nat r.g.hord && kind = "load" && what = "ent" && found = "ffff" -> r.sawmark.(tid) <- true
+        | _ -> ())
+      end;
       if kind = "cas" && ok = "0" then begin
         r.nontrivial <- true;
         incr failed_cas
@@ -366,7 +379,7 @@ let do_ret tid impl =
   (* oracles *)
   if is_panic then begin
     incr panics;
-    r.limbo <- call :: r.limbo;
+    r.limbo <- (call, r.sawmark.(tid)) :: r.limbo;
     if contains impl "Exceeding retries" then incr known_panics;
     oracle "[C03]" (Printf.sprintf "thread %d %s: %s" tid (show_icall call) impl)
   end;
@@ -451,25 +464,33 @@ let snap_checks rest inflight mem : (string * string * string) list =
   let gets = ref [] in
   let touch = function IPut (f, o) -> mark (f, o) | c -> gets := c :: !gets in
   Array.iter (function Some c -> touch c | None -> ()) r.cur;
-  List.iter touch r.limbo;
-  let leaked = ref [] in
-  for i = r.nframes - 1 downto 0 do
-    if alloc.(i) && not owned.(i) then leaked := i :: !leaked
-  done;
-  if not (cover !leaked !gets) then begin
-    (* the one known way to get here: an in-flight free of part of a huge frame that read a stale marker
-       fills rows of that huge frame which a concurrent free has already released *)
-    let ho = int_of_nat r.g.hord in
-    let split_h = ref [] in
-    let see = function IPut (f, o) when o < ho -> split_h := (f / r.hf) :: !split_h | _ -> () in
-    Array.iter (function Some c -> see c | None -> ()) r.cur;
-    List.iter see r.limbo;
-    let inside = List.for_all (fun x -> List.mem (x / r.hf) !split_h) !leaked in
+  List.iter (fun (c, _) -> touch c) r.limbo;
+  let leaked_of owned =
+    let l = ref [] in
+    for i = r.nframes - 1 downto 0 do
+      if alloc.(i) && not owned.(i) then l := i :: !l
+    done;
+    !l
+  in
+  let strict = leaked_of owned in
+  (* a partial free that observed the marker (it takes the split path: fills the whole bitfield, or waits
+     for the splitter) touches its whole huge frame until it returns *)
+  let owned2 = Array.copy owned in
+  let split_h = ref [] in
+  let see c saw = match c with IPut (f, _) when saw -> split_h := (f / r.hf) :: !split_h | _ -> () in
+  Array.iteri (fun t c -> match c with Some c -> see c r.sawmark.(t) | None -> ()) r.cur;
+  List.iter (fun (c, saw) -> see c saw) r.limbo;
+  List.iter (fun h -> for i = h * r.hf to min (r.nframes - 1) (((h + 1) * r.hf) - 1) do owned2.(i) <- true done) !split_h;
+  let leaked = leaked_of owned2 in
+  if not (cover leaked !gets) then
     add "ORACLE" "[C05]"
-      (Printf.sprintf "%s: %d frames that were free and untouched are allocated after recovery (first: %d)%s" where (List.length !leaked)
-         (List.hd !leaked)
-         (if inside then " [all inside the huge frame of an in-flight partial free: stale-split fill]" else ""))
-  end;
+      (Printf.sprintf "%s: %d frames that were free and untouched are allocated after recovery (first: %d)" where (List.length leaked)
+         (List.hd leaked))
+  else if not (cover strict !gets) then
+    (* observation (DESIGN.md): a crash in this window leaks free frames of the huge frame being split *)
+    add "NOTE" "stale-split-leak"
+      (Printf.sprintf "%s: %d free frames outside the in-flight partial free's own block are allocated after recovery (first: %d); all inside the huge frame it is splitting"
+         where (List.length strict) (List.hd strict));
   (match kv rest "stats" with
   | Some s -> (
       match String.split_on_char ',' s with
@@ -490,8 +511,11 @@ let do_snap tokens =
       let inflight =
         calls
           (List.filter_map (fun x -> x)
-             (Array.to_list (Array.mapi (fun t c -> match c with Some c -> Some (Printf.sprintf "t%d %s" t (show_icall c)) | None -> None) r.cur))
-          @ List.map (fun c -> "panicked " ^ show_icall c) r.limbo)
+             (Array.to_list
+                (Array.mapi
+                   (fun t c -> match c with Some c -> Some (Printf.sprintf "t%d %s%s" t (show_icall c) (if r.sawmark.(t) then " (saw marker)" else "")) | None -> None)
+                   r.cur))
+          @ List.map (fun (c, saw) -> "panicked " ^ show_icall c ^ if saw then " (saw marker)" else "") r.limbo)
       in
       let mem = match r.ms with Some ms -> Some (lower_of ms) | None -> None in
       let key =
@@ -592,6 +616,7 @@ let suite_step file keys =
           let t = String.concat " " rest in
           let tag = tag_of_hfail t in
           if tag = "[scenario]" then note "CORR" tag ("harness: " ^ t) else oracle tag ("harness: " ^ t)
+      | "END-ABORTED" :: _ -> ()   (* the harness gave up on a run whose solo call does not terminate (HFAIL line precedes) *)
       | "X" :: _ -> incr xlines
       | [] -> ()
       | ("#" :: _) -> ()
@@ -605,10 +630,10 @@ let suite_step file keys =
   | None -> ());
   let hist h prefix = String.concat " " (List.sort compare (Hashtbl.fold (fun k v acc -> Printf.sprintf "%s%s=%d" prefix k v :: acc) h [])) in
   Printf.printf
-    "SUMMARY suite=step evaluations=%d distinct=%d runs=%d maxsteps=%d failed_cas=%d pre=%d snaps=%d solos=%d solomax=%d panics=%d known_panics=%d xlines=%d corr=%d oracle=%d corr_runs=%d c01=%d c03=%d c05=%d c21=%d %s %s\n"
+    "SUMMARY suite=step evaluations=%d distinct=%d runs=%d maxsteps=%d failed_cas=%d pre=%d snaps=%d solos=%d solomax=%d panics=%d known_panics=%d xlines=%d corr=%d oracle=%d corr_runs=%d c01=%d c03=%d c05=%d c21=%d stale_split_leaks=%d %s %s\n"
     !evals (Hashtbl.length distinct) !runs !maxsteps !failed_cas !pre_calls !snaps !solos !solomax !panics !known_panics !xlines
     (get kind_counts "CORR") (get kind_counts "ORACLE") !corr_runs (get tag_counts "ORACLE[C01]") (get tag_counts "ORACLE[C03]")
-    (get tag_counts "ORACLE[C05]") (get tag_counts "ORACLE[C21]") (hist mode_hist "mode:") (hist scn_hist "scn:")
+    (get tag_counts "ORACLE[C05]") (get tag_counts "ORACLE[C21]") (get tag_counts "NOTEstale-split-leak") (hist mode_hist "mode:") (hist scn_hist "scn:")
 
 let () =
   match Array.to_list Sys.argv with
